@@ -163,7 +163,7 @@ func genDUID(r *Rng) dhcpv6.DUID {
 	case 0:
 		return &dhcpv6.DUIDLLT{HWType: genHWType6(r), Time: uint32(r.U64()), LinkLayerAddr: genLLAddr6(r)}
 	case 1:
-		return &dhcpv6.DUIDEN{EnterpriseNumber: uint32(r.U64()), EnterpriseIdentifier: r.Bytes(r.Range(0, 12))}
+		return &dhcpv6.DUIDEN{EnterpriseNumber: uint32(r.U64()), EnterpriseIdentifier: genData(r, 0, 12)}
 	case 2:
 		return &dhcpv6.DUIDLL{HWType: genHWType6(r), LinkLayerAddr: genLLAddr6(r)}
 	case 3:
@@ -181,7 +181,7 @@ var knownCodes6 = []int{1, 2, 3, 4, 5, 6, 8, 9, 13, 15, 16, 17, 18, 23, 24, 25, 
 var unknownCodes6 = []int{0, 7, 10, 11, 12, 14, 19, 20, 21, 31, 64, 82, 100, 136, 255, 256, 4242, 65535}
 
 func genStatus(r *Rng) dhcpv6.Option {
-	return &dhcpv6.OptStatusCode{StatusCode: iana.StatusCode(r.Pick([]int{0, 1, 2, 6, 65535})), StatusMessage: string(r.BytesNoNul(r.Range(0, 12)))}
+	return &dhcpv6.OptStatusCode{StatusCode: iana.StatusCode(r.Pick([]int{0, 1, 2, 6, 65535})), StatusMessage: string(genData(r, 0, 12))}
 }
 
 func genSubOpts(r *Rng, depth int, loose bool, pool []int) dhcpv6.Options {
@@ -265,25 +265,25 @@ func genOpt6(r *Rng, code int, depth int, loose bool) dhcpv6.Option {
 		o := &dhcpv6.OptUserClass{}
 		n := r.Range(1, 3)
 		for i := 0; i < n; i++ {
-			o.UserClasses = append(o.UserClasses, r.Bytes(r.Range(0, 10)))
+			o.UserClasses = append(o.UserClasses, genData(r, 0, 10))
 		}
 		return o
 	case 16:
 		o := &dhcpv6.OptVendorClass{EnterpriseNumber: uint32(r.U64())}
 		n := r.Range(1, 3)
 		for i := 0; i < n; i++ {
-			o.Data = append(o.Data, r.Bytes(r.Range(0, 10)))
+			o.Data = append(o.Data, genData(r, 0, 10))
 		}
 		return o
 	case 17:
 		o := &dhcpv6.OptVendorOpts{EnterpriseNumber: uint32(r.U64()), VendorOpts: dhcpv6.Options{}}
 		n := r.Range(0, 3)
 		for i := 0; i < n; i++ {
-			o.VendorOpts = append(o.VendorOpts, &dhcpv6.OptionGeneric{OptionCode: dhcpv6.OptionCode(r.Intn(65536)), OptionData: r.Bytes(r.Range(0, 12))})
+			o.VendorOpts = append(o.VendorOpts, &dhcpv6.OptionGeneric{OptionCode: dhcpv6.OptionCode(r.Intn(65536)), OptionData: genData(r, 0, 12)})
 		}
 		return o
 	case 18:
-		return dhcpv6.OptInterfaceID(r.Bytes(r.Range(0, 12)))
+		return dhcpv6.OptInterfaceID(genData(r, 0, 12))
 	case 23:
 		var ips []net.IP
 		for i := r.Range(0, 3); i > 0; i-- {
@@ -311,7 +311,7 @@ func genOpt6(r *Rng, code int, depth int, loose bool) dhcpv6.Option {
 	case 32:
 		return dhcpv6.OptInformationRefreshTime(dur(r))
 	case 37:
-		return &dhcpv6.OptRemoteID{EnterpriseNumber: uint32(r.U64()), RemoteID: r.Bytes(r.Range(0, 12))}
+		return &dhcpv6.OptRemoteID{EnterpriseNumber: uint32(r.U64()), RemoteID: genData(r, 0, 12)}
 	case 39:
 		l := genLabels(r)
 		return &dhcpv6.OptFQDN{Flags: uint8(r.Intn(256)), DomainName: l}
@@ -333,16 +333,16 @@ func genOpt6(r *Rng, code int, depth int, loose bool) dhcpv6.Option {
 				}
 				o.Suboptions = append(o.Suboptions, &dhcpv6.NTPSuboptionSrvFQDN{Labels: *l})
 			default:
-				o.Suboptions = append(o.Suboptions, &dhcpv6.OptionGeneric{OptionCode: dhcpv6.OptionCode(r.Pick([]int{0, 4, 99, 65535})), OptionData: r.Bytes(r.Range(0, 8))})
+				o.Suboptions = append(o.Suboptions, &dhcpv6.OptionGeneric{OptionCode: dhcpv6.OptionCode(r.Pick([]int{0, 4, 99, 65535})), OptionData: genData(r, 0, 8)})
 			}
 		}
 		return o
 	case 59:
-		return dhcpv6.OptBootFileURL(string(r.Bytes(r.Range(0, 30))))
+		return dhcpv6.OptBootFileURL(string(genData(r, 0, 30)))
 	case 60:
 		var ps []string
 		for i := r.Range(0, 3); i > 0; i-- {
-			ps = append(ps, string(r.Bytes(r.Range(0, 10))))
+			ps = append(ps, string(genData(r, 0, 10)))
 		}
 		return dhcpv6.OptBootFileParam(ps...)
 	case 61:
